@@ -178,7 +178,7 @@ fn apply_one(p: &mut Parts, m: &Model, f: &TransportFault) -> bool {
                         p.events[k][5] = match f.arg {
                             0 => 4,
                             1 => 255,
-                            2 => (p.events[k][5] + 1) % 4,
+                            2 => p.events[k][5].wrapping_add(1) % 4,
                             3 => 128,
                             _ => rng.below(256) as u8,
                         };
